@@ -9,6 +9,7 @@ def run(res):
     dc.check_and_replay(res, 'c04_quick', c, ov, depth_all=3, walks=3000)
     # (B) executions recorded from the real dispatcher, validated by TLC
     dc.trace_validate(res, 2000 if thorough else 200, 60)
+    dc.repo_tests_validate(res)
     # non-vacuity: the as-implemented release loop violates the model's properties
     c2, ov2 = dc.consts(H=2, subs='Subs_Fixed', beh='Beh_C04', maxq=2, maxeid=3, pops=False)
     dc.switch_run(res, 'c04_asimpl_release', c2, ov2, expect=('NoBad', 'ReleaseProgress', 'QueueInOrder', 'DrainedOnReturn', 'StateBound'))
